@@ -33,6 +33,7 @@ const (
 	EValidate     = "ValidateStruct"
 	ERuleFirst    = "ValidStructForRule"
 	EMyFn         = "ValidStructForMyValidFn"
+	EChain        = "NewVStruct.SetRule.SetRule.Valid" // the builder API used directly: the second SetRule for the same target replaces the first
 	EVar          = "Var"
 	EVarForFn     = "VarForFn"
 	EMap          = "Map"
@@ -45,7 +46,7 @@ const (
 	EDump         = "GetDumpStructStr"
 )
 
-var structEntries = []string{EStruct, EStructForFn, EStructForFns, ENested, EValidate, ERuleFirst, EMyFn}
+var structEntries = []string{EStruct, EStructForFn, EStructForFns, ENested, EValidate, ERuleFirst, EMyFn, EChain}
 
 func (c Call) IsStruct() bool {
 	for _, e := range structEntries {
@@ -98,6 +99,7 @@ func mkValue(t, v int) interface{} {
 type args struct {
 	src   interface{}
 	rule  valid.RM
+	rule2 valid.RM // EChain: the rule map of the second SetRule
 	fns   valid.Name2FnMap
 	nest  map[interface{}]valid.RM
 	rules []string
@@ -263,6 +265,9 @@ func (c Call) build() *args {
 		}
 		a.rule = mkRule(c.Rule)
 		a.fns = mkFns(c.Fn)
+		if c.Entry == EChain {
+			a.rule2 = mkRule(1 + (c.Rule+c.Val)%(len(ruleSets)-1))
+		}
 		if c.Entry == ENested {
 			a.nest = map[interface{}]valid.RM{}
 			if c.Rule != 0 {
@@ -420,6 +425,20 @@ func (c Call) Exec() (res Result) {
 			name, fn = "even", evenFn("myfn")
 		}
 		errRes(valid.ValidStructForMyValidFn(a.src, name, fn, tag...))
+	case EChain:
+		v := valid.NewVStruct(tag...)
+		if a.rule != nil {
+			v.SetRule(a.rule)
+		}
+		v.SetRule(a.rule2)
+		if a.fns != nil {
+			for _, k := range []string{"odd", "even", "required"} {
+				if f, ok := a.fns[k]; ok {
+					v.SetValidFn(k, f)
+				}
+			}
+		}
+		errRes(v.Valid(a.src))
 	case EVar:
 		errRes(valid.Var(a.src, a.rules...))
 	case EVarForFn:
@@ -458,12 +477,36 @@ func (c Call) Exec() (res Result) {
 		res.Mutated = fmt.Sprintf("the value passed in was modified: %s", valid.GetDumpStructStrForJson(a.src))
 	case !reflect.DeepEqual(a.rule, b.rule):
 		res.Mutated = fmt.Sprintf("the rule map passed in was modified: %v, built as %v", a.rule, b.rule)
+	case !reflect.DeepEqual(a.rule2, b.rule2):
+		res.Mutated = fmt.Sprintf("the rule map passed to the second SetRule was modified: %v, built as %v", a.rule2, b.rule2)
 	case !reflect.DeepEqual(a.rules, b.rules) || !reflect.DeepEqual(a.strs, b.strs) || a.str != b.str:
 		res.Mutated = "a string argument was modified"
 	case len(a.fns) != len(b.fns) || len(a.nest) != len(b.nest):
 		res.Mutated = "the function/rule table passed in was modified"
+	case !sameNest(a.nest, b.nest):
+		res.Mutated = "a rule map inside the table passed to NestedStructForRule was modified"
 	}
 	return res
+}
+
+// sameNest compares the rule maps of two NestedStructForRule tables built from the same descriptor (keys are
+// pointers to fresh zero values: matched by their type).
+func sameNest(a, b map[interface{}]valid.RM) bool {
+	for ka, ra := range a {
+		found := false
+		for kb, rb := range b {
+			if reflect.TypeOf(ka) == reflect.TypeOf(kb) {
+				found = true
+				if !reflect.DeepEqual(ra, rb) {
+					return false
+				}
+			}
+		}
+		if !found {
+			return false
+		}
+	}
+	return true
 }
 
 // SameResult compares two canonical results; unordered ones as multisets of clauses.
